@@ -155,6 +155,9 @@ func init() {
 	streams["restart"] = func(dir string, rng *rand.Rand, n int, tier string) {
 		s := NewStream(dir, "restart")
 		defer s.Close(dir, "restart")
+		for _, plan := range []string{"v2.2.0", "v2.2.1"} {
+			monC10RestartAfterHandler(s, plan)
+		}
 		for h := 0; h < n; h++ {
 			accts := rtAccts()
 			dbA, dbB := dbm.NewMemDB(), dbm.NewMemDB()
